@@ -17,8 +17,8 @@
    Flush label names the bytes per slice.  The theorems quantify over all of them, the correspondence
    feeds the observed ones (and rejects a slot that the model does not consider free).
 
-   [gx] = true : WriteBytes / WriteByte / Reserve refuse to allocate for a stream that has been closed (they
-                 return ErrStreamClosed); [gx] = false: they allocate (linkedBuffer has no state check);
+   [gx] = true : the write side (linkedBuffer.alloc, Reserve) takes no shared memory for a stream that has been
+                 closed - such writes go to heap slices; [gx] = false: it allocates shared memory (no state check);
    [fx] = true : linkedBuffer.recycle() also cleans the pinned list (the code since a234a74);
    [fx] = false: recycle() does not touch the pinned list (the code before; kept for the regression).
    Which variant /repo is, is translated from buffer.go on every run (Gen/SwitchC09.v). *)
@@ -160,9 +160,9 @@ Definition do_poll (e : bool) (s : st) : st :=
 Definition do_write (e : bool) (sid : nat) (new : list Z) (heap : bool) (s : st) : option st :=
   let k := key e sid in
   let v := streams s k in
-  (* a stream that has been closed locally: with gx the write operations return ErrStreamClosed and allocate
-     nothing; without it linkedBuffer has no state check - the slices go into the send buffer of a stream that
-     clean() has already left behind and only a later Flush (which recycles on ErrStreamClosed) returns them *)
+  (* a stream that has been closed locally: with gx its writes take heap slices, no slot moves; without it
+     linkedBuffer has no state check - the slices go into the send buffer of a stream that clean() has already
+     left behind and only a later Flush (which recycles on ErrStreamClosed) returns them *)
   if negb (alive v) && gx s then Some s
   else if negb (subsetb new (free s) && nodupb new) then None      (* the allocator handed out a slot that is not free *)
   else Some (set_stream k {| alive := alive v; half := half v; infb := infb v; sendb := sendb v ++ new;
